@@ -223,8 +223,9 @@ pub fn run(ctx: &Ctx, rep: &mut Report) {
     let big: Vec<(usize, usize)> = if ctx.thorough() {
         vec![(255, 1), (256, 256), (257, 255), (1000, 100), (100, 1000), (4095, 4097), (32768, 32768), (61440, 4096), (4096, 61440), (65534, 2), (2, 65534), (65535, 1), (1, 65535)]
     } else {
-        vec![(255, 1), (257, 255), (100, 1000), (4095, 4097), (65535, 1)]
+        vec![(255, 1), (257, 255), (100, 1000), (4095, 4097), (65535, 1), (10000, 10000), (1000, 20000), (20000, 1000)]
     };
+    let big: Vec<(usize, usize)> = if ctx.thorough() { big.into_iter().chain([(10000, 10000), (1000, 20000), (20000, 1000), (16385, 3), (3, 16385), (8193, 8193)]).collect() } else { big };
     let mut fam_specs: Vec<GroupSpec> = Vec::new();
     // grid of mid-size configurations around every chunk-size boundary (pattern families, first 12)
     let grid: Vec<usize> = if ctx.thorough() {
